@@ -144,10 +144,46 @@ class Body:
         return "<Body %s>" % self.name
 
 
+# Where the public types and traits of the crate live in the layout the rules were written against. A maintainer may move
+# one of them to another (private) module and re-export it: every def path and type string that mentions it is renamed back
+# to this layout when the facts are loaded, so that the rules keep naming `actor_ref::ActorWeak` whatever file it sits in.
+CANONICAL_HOME = {
+    "ActorRef": "actor_ref", "ActorWeak": "actor_ref", "Error": "error", "ActorResult": "actor_result", "FailurePhase": "actor_result",
+    "Identity": "", "DeadLetterReason": "dead_letter", "MetricsCollector": "metrics::collector", "MessageProcessingGuard": "metrics::collector",
+    "MetricsSnapshot": "metrics::snapshot", "Actor": "actor", "Message": "actor", "TellHandler": "handler", "AskHandler": "handler",
+    "WeakTellHandler": "handler", "WeakAskHandler": "handler", "ActorControl": "actor_control", "WeakActorControl": "actor_control",
+}
+
+
+def canonical_paths(text):
+    import re
+    try:
+        d = json.loads(text)
+    except ValueError:
+        return text
+    if d.get("crate") != "rsactor":
+        return text
+    defs = [a["def"] for a in d.get("adts", [])] + [t["def"] for t in d.get("traits", [])]
+    names = [x.rsplit("::", 1)[-1] for x in defs]
+    renames = []
+    for x in defs:
+        mod, _, name = x.rpartition("::")
+        if name in CANONICAL_HOME and names.count(name) == 1 and mod != CANONICAL_HOME[name]:
+            home = CANONICAL_HOME[name]
+            renames.append((x, (home + "::" + name) if home else name))
+    for old, new in renames:
+        text = re.sub(r"(?<![A-Za-z0-9_:])" + re.escape(old) + r"(?![A-Za-z0-9_])", new, text)
+    # an inherent impl block that sits in another module than its type (`blocking::<impl actor_ref::ActorRef<T>>::blocking_ask`)
+    # names the same methods as one next to the type (`actor_ref::ActorRef::<T>::blocking_ask`)
+    text = re.sub(r"(?<![A-Za-z0-9_:])(?:[a-z_][a-z0-9_]*::)+<impl ([A-Za-z0-9_:]+)<([A-Za-z0-9_, ']*)>>::", r"\1::<\2>::", text)
+    text = re.sub(r"(?<![A-Za-z0-9_:])(?:[a-z_][a-z0-9_]*::)+<impl ([A-Za-z0-9_:]+)>::", r"\1::", text)
+    return text
+
+
 class Facts:
     def __init__(self, path, inline=None):
         with open(path) as fh:
-            self.d = json.load(fh)
+            self.d = json.loads(canonical_paths(fh.read()))
         self.path = path
         self.crate = self.d["crate"]
         self.features = sorted(x for x in self.d["features"] if x != "default")
